@@ -34,9 +34,14 @@ type c15Op struct {
 	Chunks []a2bstr `json:"chunks,omitempty"` // S
 }
 
+// A request may carry ONE nested request: the handler serves it through the same Echo (same
+// middleware instance, same pools) from inside its own run — two requests alive at the same
+// time, deterministically.
 type c15Req struct {
-	AE  string  `json:"accept_encoding"`
-	Ops []c15Op `json:"ops"`
+	Nested *c15Req `json:"nested,omitempty"`  // served by the handler before its op number NestAt (after the last op if NestAt >= len)
+	NestAt int     `json:"nest_at,omitempty"` //
+	AE     string  `json:"accept_encoding"`
+	Ops    []c15Op `json:"ops"`
 }
 
 type c15DReq struct {
@@ -45,15 +50,22 @@ type c15DReq struct {
 	Plain   a2bstr   `json:"plain,omitempty"`   //
 	Members []a2bstr `json:"members,omitempty"` // one gzip member per element
 	Defect  int      `json:"defect,omitempty"`  // 0 none | 1 garbage after the trailer | 2 trailer cut | 3 wrong checksum
+	// the handler reads NestAfter bytes of its body, serves Nested through the same Echo, then reads the rest
+	Nested    *c15DReq `json:"nested,omitempty"`
+	NestAfter int      `json:"nest_after,omitempty"`
 }
 
 type c15Case struct {
-	Kind       string    `json:"kind"` // gzip | decompress
-	MinLength  int       `json:"min_length"`
-	Level      int       `json:"level"`
-	Concurrent bool      `json:"concurrent"` // the requests run concurrently through the one instance
-	Reqs       []c15Req  `json:"reqs,omitempty"`
-	DReqs      []c15DReq `json:"dreqs,omitempty"`
+	Kind       string `json:"kind"` // gzip | decompress
+	MinLength  int    `json:"min_length"`
+	Level      int    `json:"level"`
+	Concurrent bool   `json:"concurrent"` // the requests run concurrently through the one instance
+	// decompress: the middleware constructor is applied to the handler ONCE (h := Decompress()(handler), as the
+	// package's own tests do) and every request goes through h; otherwise e.Use + e.ServeHTTP, where echo
+	// re-applies the middleware function per request and Decompress therefore builds a new pool per request
+	Once  bool      `json:"once,omitempty"`
+	Reqs  []c15Req  `json:"reqs,omitempty"`
+	DReqs []c15DReq `json:"dreqs,omitempty"`
 }
 
 // ---------- the recording response writer (net/http's rule: the first WriteHeader wins, a
@@ -149,6 +161,8 @@ type c15Trace struct {
 	badCount string   // first Write whose count was not len(b)
 	chosen   int      // status the handler chose
 	flushed  [][]byte // bytes written before each Flush
+	nestAt   int      // serve the nested request before this op …
+	sub      func()   // … by calling this (nil: no nested request)
 }
 
 func c15RunOps(ctx echo.Context, ops []c15Op, tr *c15Trace) {
@@ -163,7 +177,18 @@ func c15RunOps(ctx echo.Context, ops []c15Op, tr *c15Trace) {
 			tr.badCount = fmt.Sprintf("%s of %d bytes returned %d", where, len(b), n)
 		}
 	}
+	nested := func() {
+		if tr.sub != nil {
+			sub := tr.sub
+			tr.sub = nil
+			sub()
+		}
+	}
+	defer nested() // NestAt beyond the last op
 	for i, op := range ops {
+		if i == tr.nestAt {
+			nested()
+		}
 		switch op.K {
 		case "L":
 			res.Header().Set(echo.HeaderContentLength, strconv.Itoa(op.N))
@@ -293,7 +318,32 @@ type c15Out struct {
 	nontr  bool
 }
 
-func c15ServeGzip(e *echo.Echo, minLength int, rq c15Req) (out c15Out) {
+// c15ServeGzip serves a request and, from inside its handler, the request nested in it;
+// results in pre-order (outer first).
+func c15ServeGzip(e *echo.Echo, minLength int, rq c15Req) []c15Out {
+	var inner []c15Out
+	var sub func()
+	if rq.Nested != nil {
+		n := *rq.Nested
+		n.Nested = nil
+		sub = func() { inner = c15ServeGzip(e, minLength, n) }
+	}
+	out := c15ServeGzip1(e, minLength, rq, sub)
+	if rq.Nested != nil {
+		out.tags = append(out.tags, "nested-request")
+		if len(inner) == 0 {
+			inner = []c15Out{{obs: "not-served", oracle: "the nested request was not served"}}
+		}
+		for i := range inner {
+			if inner[i].oracle != "" {
+				inner[i].oracle = "nested request: " + inner[i].oracle
+			}
+		}
+	}
+	return append([]c15Out{out}, inner...)
+}
+
+func c15ServeGzip1(e *echo.Echo, minLength int, rq c15Req, sub func()) (out c15Out) {
 	defer func() {
 		if p := recover(); p != nil {
 			out.obs = "panic"
@@ -305,7 +355,7 @@ func c15ServeGzip(e *echo.Echo, minLength int, rq c15Req) (out c15Out) {
 	if rq.AE != "" {
 		req.Header.Set(echo.HeaderAcceptEncoding, rq.AE)
 	}
-	tr := &c15Trace{}
+	tr := &c15Trace{nestAt: rq.NestAt, sub: sub}
 	req = req.WithContext(c15WithTrace(req.Context(), tr, rq.Ops))
 	e.ServeHTTP(raw, req)
 	raw.WriteHeader(http.StatusOK) // what net/http does when the handler returns without writing
@@ -514,7 +564,50 @@ func c15DBody(d c15DReq) []byte {
 	return b
 }
 
-func c15ServeDecompress(e *echo.Echo, d c15DReq) (out c15Out) {
+// c15ServeDecompress serves a request and, from inside its handler (between two of its body
+// reads), the request nested in it; results in pre-order.  The nested request is only there
+// when the outer handler ran.
+func c15ServeDecompress(e c15Server, d c15DReq) []c15Out {
+	var inner []c15Out
+	var sub func()
+	if d.Nested != nil {
+		n := *d.Nested
+		n.Nested = nil
+		sub = func() { inner = c15ServeDecompress(e, n) }
+	}
+	out, ran := c15ServeDecompress1(e, d, sub)
+	if d.Nested != nil {
+		out.tags = append(out.tags, "nested-request")
+		if ran && len(inner) == 0 {
+			inner = []c15Out{{obs: "not-served", oracle: "the nested request was not served"}}
+		}
+		for i := range inner {
+			if inner[i].oracle != "" {
+				inner[i].oracle = "nested request: " + inner[i].oracle
+			}
+		}
+	}
+	return append([]c15Out{out}, inner...)
+}
+
+type c15Server interface {
+	ServeHTTP(http.ResponseWriter, *http.Request)
+}
+
+// c15Once serves every request through one handler chain built once from the constructor.
+type c15Once struct {
+	e *echo.Echo
+	h echo.HandlerFunc
+}
+
+func (o c15Once) ServeHTTP(w http.ResponseWriter, r *http.Request) {
+	ctx := o.e.NewContext(r, w)
+	if err := o.h(ctx); err != nil {
+		o.e.HTTPErrorHandler(err, ctx)
+	}
+}
+
+func c15ServeDecompress1(e c15Server, d c15DReq, sub func()) (out c15Out, ran bool) {
 	defer func() {
 		if p := recover(); p != nil {
 			out.obs = "panic"
@@ -526,10 +619,11 @@ func c15ServeDecompress(e *echo.Echo, d c15DReq) (out c15Out) {
 	if d.CE != "" {
 		req.Header.Set(echo.HeaderContentEncoding, d.CE)
 	}
-	seen := &c15DSeen{}
+	seen := &c15DSeen{nestAfter: d.NestAfter, sub: sub}
 	req = req.WithContext(c15WithDSeen(req.Context(), seen))
 	rec := httptest.NewRecorder()
 	e.ServeHTTP(rec, req)
+	ran = seen.ran
 
 	view := wJoin("B", wBytes(seen.data))
 	if d.Gzip && seen.ran && bytes.Equal(seen.data, wire) {
@@ -580,7 +674,7 @@ func c15ServeDecompress(e *echo.Echo, d c15DReq) (out c15Out) {
 			fail("a body that is not gzip, labelled gzip, was read without an error")
 		}
 	}
-	return out
+	return out, ran
 }
 
 // ---------- context plumbing between the harness and the handlers ----------
@@ -598,9 +692,39 @@ type c15Script struct {
 }
 
 type c15DSeen struct {
-	ran  bool
-	data []byte
-	err  error
+	ran       bool
+	data      []byte
+	err       error
+	nestAfter int    // read this many bytes, then …
+	sub       func() // … serve the nested request (nil: none), then read the rest
+}
+
+// c15ReadBody is the Decompress handler's body: all of the request body, with the nested
+// request (if any) served in the middle.
+func c15ReadBody(body io.Reader, seen *c15DSeen) {
+	done := false
+	if seen.sub != nil {
+		buf := make([]byte, 37)
+		for len(seen.data) < seen.nestAfter && !done {
+			k := seen.nestAfter - len(seen.data)
+			if k > len(buf) {
+				k = len(buf)
+			}
+			n, err := body.Read(buf[:k])
+			seen.data = append(seen.data, buf[:n]...)
+			if err == io.EOF {
+				done = true
+			} else if err != nil {
+				seen.err, done = err, true
+			}
+		}
+		seen.sub()
+	}
+	if !done {
+		rest, err := io.ReadAll(body)
+		seen.data = append(seen.data, rest...)
+		seen.err = err
+	}
 }
 
 func c15WithTrace(ctx context.Context, tr *c15Trace, ops []c15Op) context.Context {
@@ -634,38 +758,56 @@ func c15Run(ci any) (res Result) {
 			return nil
 		})
 		ops = []string{"G", wInt(c.MinLength), wInt(len(c.Reqs))}
-		for _, rq := range c.Reqs {
+		reqLine := func(rq c15Req) {
 			ops = append(ops, wStr(rq.AE), wInt(len(rq.Ops)))
 			for _, op := range rq.Ops {
 				ops = append(ops, c15OpLine(op))
 			}
 		}
-		outs = make([]c15Out, len(c.Reqs))
+		for _, rq := range c.Reqs {
+			reqLine(rq)
+			if rq.Nested == nil {
+				ops = append(ops, "0")
+			} else {
+				ops = append(ops, "1", wInt(rq.NestAt))
+				reqLine(*rq.Nested)
+			}
+		}
+		per := make([][]c15Out, len(c.Reqs))
 		if c.Concurrent {
 			var wg sync.WaitGroup
 			for i := range c.Reqs {
 				wg.Add(1)
 				go func(i int) {
 					defer wg.Done()
-					outs[i] = c15ServeGzip(e, c.MinLength, c.Reqs[i])
+					per[i] = c15ServeGzip(e, c.MinLength, c.Reqs[i])
 				}(i)
 			}
 			wg.Wait()
 		} else {
 			for i := range c.Reqs {
-				outs[i] = c15ServeGzip(e, c.MinLength, c.Reqs[i])
+				per[i] = c15ServeGzip(e, c.MinLength, c.Reqs[i])
 			}
 		}
+		for _, p := range per {
+			outs = append(outs, p...)
+		}
 	case "decompress":
-		e.Use(middleware.Decompress())
-		e.POST("/", func(ctx echo.Context) error {
+		handler := func(ctx echo.Context) error {
 			seen := ctx.Request().Context().Value(c15DSeenKey).(*c15DSeen)
 			seen.ran = true
-			seen.data, seen.err = io.ReadAll(ctx.Request().Body)
+			c15ReadBody(ctx.Request().Body, seen)
 			return ctx.NoContent(http.StatusOK)
-		})
+		}
+		var srv c15Server = e
+		if c.Once {
+			srv = c15Once{e, middleware.Decompress()(handler)}
+		} else {
+			e.Use(middleware.Decompress())
+			e.POST("/", handler)
+		}
 		ops = []string{"D", wInt(len(c.DReqs))}
-		for _, d := range c.DReqs {
+		reqLine := func(d c15DReq) {
 			ops = append(ops, wStr(d.CE))
 			if d.Gzip {
 				ops = append(ops, "Z", wInt(len(d.Members)))
@@ -677,27 +819,46 @@ func c15Run(ci any) (res Result) {
 				ops = append(ops, "P", wStr(string(d.Plain)))
 			}
 		}
-		outs = make([]c15Out, len(c.DReqs))
+		for _, d := range c.DReqs {
+			reqLine(d)
+			if d.Nested == nil {
+				ops = append(ops, "0")
+			} else {
+				ops = append(ops, "1")
+				reqLine(*d.Nested)
+			}
+		}
+		per := make([][]c15Out, len(c.DReqs))
 		if c.Concurrent {
 			var wg sync.WaitGroup
 			for i := range c.DReqs {
 				wg.Add(1)
 				go func(i int) {
 					defer wg.Done()
-					outs[i] = c15ServeDecompress(e, c.DReqs[i])
+					per[i] = c15ServeDecompress(srv, c.DReqs[i])
 				}(i)
 			}
 			wg.Wait()
 		} else {
 			for i := range c.DReqs {
-				outs[i] = c15ServeDecompress(e, c.DReqs[i])
+				per[i] = c15ServeDecompress(srv, c.DReqs[i])
 			}
+		}
+		for _, p := range per {
+			outs = append(outs, p...)
 		}
 	default:
 		return Result{Oracle: "harness: unknown kind " + c.Kind}
 	}
 	obs := []string{wInt(len(outs))}
 	tags := []string{"kind:" + c.Kind}
+	if c.Kind == "decompress" {
+		if c.Once {
+			tags = append(tags, "decompress:constructor-applied-once(shared pool)")
+		} else {
+			tags = append(tags, "decompress:e.Use(pool per request)")
+		}
+	}
 	if c.Concurrent {
 		tags = append(tags, "concurrent")
 	}
@@ -710,7 +871,7 @@ func c15Run(ci any) (res Result) {
 		obs = append(obs, o.obs)
 		tags = append(tags, o.tags...)
 		if o.oracle != "" && oracle == "" {
-			oracle = fmt.Sprintf("request %d: %s", i, o.oracle)
+			oracle = fmt.Sprintf("response %d: %s", i, o.oracle)
 		}
 		nontr = nontr || o.nontr
 	}
@@ -807,24 +968,56 @@ func c15GenProg(r *rand.Rand, m int, wide bool) []c15Op {
 	return ops
 }
 
+func c15GenDReq(r *rand.Rand) c15DReq {
+	d := c15DReq{CE: []string{"gzip", "gzip", "gzip", "gzip", "gzip", "gzip", "", "identity", "deflate", "br", "GZIP", "gzip, identity"}[r.Intn(12)]}
+	switch k := r.Intn(10); {
+	case k < 6:
+		d.Gzip = true
+		for j, nm := 0, 1+r.Intn(2); j < nm; j++ {
+			d.Members = append(d.Members, c15Data(r, []int{0, 1, 10, 100, 5000}[r.Intn(5)]+r.Intn(4)))
+		}
+		if r.Intn(5) == 0 {
+			d.Defect = 1 + r.Intn(3)
+		}
+	case k < 7:
+		d.Plain = ""
+	default:
+		d.Plain = c15Data(r, []int{1, 5, 9, 10, 11, 200}[r.Intn(6)])
+	}
+	return d
+}
+
 func c15GenCase(r *rand.Rand, tier string) *c15Case {
 	if r.Intn(8) == 0 {
-		c := &c15Case{Kind: "decompress", Concurrent: r.Intn(6) == 0}
+		c := &c15Case{Kind: "decompress", Concurrent: r.Intn(6) == 0, Once: r.Intn(3) != 0}
+		// histories aimed at the pooled reader: a gzip-labelled request WITHOUT body (the path
+		// that leaves Reset early) or a rejected one first, then requests that are alive at
+		// the same time (a handler serving a nested request between its own reads)
+		if r.Intn(3) == 0 {
+			for i, n := 0, 1+r.Intn(2); i < n; i++ {
+				d := c15DReq{CE: "gzip"}
+				if r.Intn(4) == 0 {
+					d.Plain = c15Data(r, 1+r.Intn(12))
+				}
+				c.DReqs = append(c.DReqs, d)
+			}
+		}
 		for i, n := 0, 1+r.Intn(5); i < n; i++ {
-			d := c15DReq{CE: []string{"gzip", "gzip", "gzip", "gzip", "gzip", "gzip", "", "identity", "deflate", "br", "GZIP", "gzip, identity"}[r.Intn(12)]}
-			switch k := r.Intn(10); {
-			case k < 6:
-				d.Gzip = true
-				for j, nm := 0, 1+r.Intn(2); j < nm; j++ {
-					d.Members = append(d.Members, c15Data(r, []int{0, 1, 10, 100, 5000}[r.Intn(5)]+r.Intn(4)))
+			d := c15GenDReq(r)
+			if r.Intn(3) == 0 {
+				n := c15GenDReq(r)
+				if r.Intn(3) != 0 { // mostly a well-formed gzip request inside a well-formed gzip request
+					n.CE, n.Gzip, n.Defect, n.Plain = "gzip", true, 0, ""
+					if len(n.Members) == 0 {
+						n.Members = []a2bstr{c15Data(r, 1+r.Intn(300))}
+					}
 				}
-				if r.Intn(5) == 0 {
-					d.Defect = 1 + r.Intn(3)
+				d.Nested = &n
+				total := 0
+				for _, m := range d.Members {
+					total += len(m)
 				}
-			case k < 7:
-				d.Plain = ""
-			default:
-				d.Plain = c15Data(r, []int{1, 5, 9, 10, 11, 200}[r.Intn(6)])
+				d.NestAfter = []int{0, 1, total / 2, total, total + 5}[r.Intn(5)]
 			}
 			c.DReqs = append(c.DReqs, d)
 		}
@@ -841,7 +1034,14 @@ func c15GenCase(r *rand.Rand, tier string) *c15Case {
 		c.MinLength = 40000
 	}
 	for i, n := 0, 1+r.Intn(5); i < n; i++ {
-		c.Reqs = append(c.Reqs, c15Req{AE: c15AEs[r.Intn(len(c15AEs))], Ops: c15GenProg(r, c.MinLength, wide)})
+		rq := c15Req{AE: c15AEs[r.Intn(len(c15AEs))], Ops: c15GenProg(r, c.MinLength, wide)}
+		// two responses alive at the same time through the one instance: the handler serves
+		// another request between two of its own ops
+		if r.Intn(5) == 0 {
+			rq.Nested = &c15Req{AE: c15AEs[r.Intn(len(c15AEs))], Ops: c15GenProg(r, c.MinLength, false)}
+			rq.NestAt = r.Intn(len(rq.Ops) + 2)
+		}
+		c.Reqs = append(c.Reqs, rq)
 	}
 	return c
 }
@@ -876,6 +1076,11 @@ func c15Shrink(ci any) []any {
 		d.Level = 0
 		out = append(out, &d)
 	}
+	if c.Once {
+		d := *c
+		d.Once = false
+		out = append(out, &d)
+	}
 	for i := range c.Reqs {
 		if len(c.Reqs) > 1 {
 			d := *c
@@ -888,6 +1093,72 @@ func c15Shrink(ci any) []any {
 			d := *c
 			d.DReqs = append(append([]c15DReq(nil), c.DReqs[:i]...), c.DReqs[i+1:]...)
 			out = append(out, &d)
+		}
+	}
+	// nested requests: drop it, serve it first, let it take the outer one's place, make it smaller
+	for i, rq := range c.Reqs {
+		if rq.Nested == nil {
+			continue
+		}
+		set := func(nr c15Req) {
+			d := *c
+			d.Reqs = append([]c15Req(nil), c.Reqs...)
+			d.Reqs[i] = nr
+			out = append(out, &d)
+		}
+		nr := rq
+		nr.Nested, nr.NestAt = nil, 0
+		set(nr)
+		set(*rq.Nested)
+		if rq.NestAt != 0 {
+			nr = rq
+			nr.NestAt = 0
+			set(nr)
+		}
+		for j := range rq.Nested.Ops {
+			in := *rq.Nested
+			in.Ops = append(append([]c15Op(nil), rq.Nested.Ops[:j]...), rq.Nested.Ops[j+1:]...)
+			nr = rq
+			nr.Nested = &in
+			set(nr)
+		}
+	}
+	for i, dq := range c.DReqs {
+		if dq.Nested == nil {
+			continue
+		}
+		set := func(nd c15DReq) {
+			d := *c
+			d.DReqs = append([]c15DReq(nil), c.DReqs...)
+			d.DReqs[i] = nd
+			out = append(out, &d)
+		}
+		nd := dq
+		nd.Nested, nd.NestAfter = nil, 0
+		set(nd)
+		set(*dq.Nested)
+		if dq.NestAfter != 0 {
+			nd = dq
+			nd.NestAfter = 0
+			set(nd)
+		}
+		in := *dq.Nested
+		if len(in.Members) > 1 {
+			in.Members = in.Members[:1]
+			nd = dq
+			nd.Nested = &in
+			set(nd)
+		}
+		in = *dq.Nested
+		for k, m := range in.Members {
+			if len(m) > 1 {
+				in2 := in
+				in2.Members = append([]a2bstr(nil), in.Members...)
+				in2.Members[k] = m[:len(m)/2]
+				nd = dq
+				nd.Nested = &in2
+				set(nd)
+			}
 		}
 	}
 	setReq := func(i int, rq c15Req) {
@@ -975,7 +1246,7 @@ func c15Shrink(ci any) []any {
 func init() {
 	register(&Prop{
 		ID:             "C15",
-		Rule:           "7 of 8 cases: sequences of 1-5 requests (1 in 6 cases: run concurrently) through ONE GzipWithConfig instance, MinLength in {0,1,10,1000} (thorough: also 2,100 and, rarely, 40000 with bodies beyond io.Copy's 32 KiB buffer), Level in {default,1,9,HuffmanOnly}, Accept-Encoding in {gzip, 'gzip, deflate, br', 'br, gzip', 'gzip;q=0', none, deflate, identity, *, x-gzip}; handler programs of 0-6 ops over {WriteHeader(code), Write(chunk), Flush, Stream(chunked reader), Stream(strings.Reader)} with chunk sizes {0,1,m-1,m,m+1,m/2,2m,random} around the threshold m, 1 in 6 preceded by an honest Content-Length set by the handler. 1 of 8 cases: 1-5 requests through ONE Decompress instance with Content-Encoding in {gzip, none, identity, deflate, br, GZIP, 'gzip, identity'} x body in {gzip of 1-2 members, damaged gzip (garbage after trailer / cut trailer / wrong checksum), empty, plain bytes of 1..200}. non-trivial = a gzip-accepted request whose switch to compression happens on a second or later write or is forced by Flush, or that ends below the threshold after >= 2 writes; or a well-formed gzip request body labelled gzip. distinct = distinct model op lines",
+		Rule:           "7 of 8 cases: sequences of 1-5 requests (1 in 6 cases: run concurrently) through ONE GzipWithConfig instance, MinLength in {0,1,10,1000} (thorough: also 2,100 and, rarely, 40000 with bodies beyond io.Copy's 32 KiB buffer), Level in {default,1,9,HuffmanOnly}, Accept-Encoding in {gzip, 'gzip, deflate, br', 'br, gzip', 'gzip;q=0', none, deflate, identity, *, x-gzip}; handler programs of 0-6 ops over {WriteHeader(code), Write(chunk), Flush, Stream(chunked reader), Stream(strings.Reader)} with chunk sizes {0,1,m-1,m,m+1,m/2,2m,random} around the threshold m, 1 in 6 preceded by an honest Content-Length set by the handler, 1 request in 5 serving a NESTED request (own program and Accept-Encoding) through the same Echo between two of its ops. 1 of 8 cases: 1-5 requests through ONE Decompress instance - for two thirds of the cases the constructor applied once to the handler (one reader pool for all requests), else e.Use + e.ServeHTTP - (a third of the cases start with gzip-labelled requests that have no body or a rejected one; a third of the requests serve a NESTED request through the same Echo between two reads of their own body) with Content-Encoding in {gzip, none, identity, deflate, br, GZIP, 'gzip, identity'} x body in {gzip of 1-2 members, damaged gzip (garbage after trailer / cut trailer / wrong checksum), empty, plain bytes of 1..200}. non-trivial = a gzip-accepted request whose switch to compression happens on a second or later write or is forced by Flush, or that ends below the threshold after >= 2 writes; or a well-formed gzip request body labelled gzip. distinct = distinct model op lines",
 		New:            func() any { return &c15Case{} },
 		Gen:            c15Gen,
 		Run:            c15Run,
